@@ -41,6 +41,11 @@ def check_history(case, ctx, partial=False):
     cacheable = {d["name"] for d in spec["defs"] if not d.get("nocache")}
     labels = set()
     warm_after_change = False
+    if "no-coalesce-value-failure" in ctx.flags:
+        if any("coalesce-absorbed-value-failure" in ref.run(o).labels for o in hist):
+            ctx.exclude("no-coalesce-value-failure")
+            ctx.done(case, False, ["excluded-K6"])
+            return
     for i, o in enumerate(hist):
         r = ref.run(o)
         where = f"step {i} options={o}"
